@@ -220,7 +220,8 @@ class FnTaint:
         l = op_local(op)
         if l is None:
             return "constant"
-        anc, calls, _ = self.du.slice_back(l, depth=10)
+        # (strict: the value of an element does not derive from the index it was loaded with — a bounds check on `i` says nothing about v[i])
+        anc, calls, _ = self.du.slice_back(l, depth=10, through_index=not strict)
         for c in calls:
             cn = ncallee(c) or ""
             if SANITISE_CALL.search(cn):
